@@ -1,12 +1,23 @@
 from . import _m3
 
 MANIFEST = {
-    "text": "TODO",
-    "note": "TODO",
+    "text": "Lean 4 theorems over the model M3 of the XGo expression printer (expr1/binaryExpr/cutoff/walkBinary/mayCombine) and of parser.ParseExpr: "
+            "C22_print_parse_synth (for every tree of the fragment wf without paren nodes: scanning the printed items gives exactly the printed tokens and parsing them returns the tree "
+            "up to the parentheses the printer inserted), C22_blank_sound (no two adjacent printed tokens combine: - -x, a / *p, a & &b, x - -y, 1 .x), C22_parse_printed (the parser returns norm e, "
+            "the tree with exactly the printer's parentheses), C22_fuel_adequate, C22_prec_table_covered (every operator of the regenerated Token.Precedence table is inside the theorem's domain). "
+            "FULL on the fragment wf = ident, literals, number-unit, $env, all 19 binary operators, unary + - ! ^ & <-, *x, paren, selector, index, call with ..., x! x? x?:d; "
+            "PARTIAL for C22 as a whole: slice, composite/slice literal, lambda, type assertion are only checked by the differential run and the oracle (three non-round-tripping shapes are proved "
+            "as model witnesses C22_witness_* and recorded as findings); command-style calls and statements are not modelled.",
+    "note": "trusted: Lean kernel (propext, Classical.choice, Quot.sound); the hand-written model M3 (tied by the differential run: rendered text byte-for-byte against printer.Fprint, "
+            "token stream against the real scanner, parse result against parser.ParseExpr, combines-table against the real scanner on all operator pairs) and the translator target prec "
+            "(Token.Precedence, *Prec constants, mayCombine are regenerated from /repo on every run); identifiers/literal texts are opaque byte strings assumed to scan as one token of their kind.",
     "technique": "Lean 4 proof (structural induction with precedence invariants) + translator tie (Token.Precedence, mayCombine) + differential correspondence model vs real printer/scanner/parser + property oracle on synthesized trees",
 }
 
-RULE = "TODO"
+RULE = ("exhaustive: every binary operator x 30 operand shapes on both sides (unary ops, *x, x!, x?, x?:d, selector, call, index, lambda) in normal and compact mode, "
+        "all ordered pairs of binary operators in both association orders, every unary/postfix form over the same operands; all ordered pairs of operator tokens + 13 word/literal classes "
+        "for the glue table; a corpus of 150 expression strings and token-level mutants of printed trees for the parser tie; random synthesized trees (depth<=4) over all M3 node kinds from the "
+        "one seed; a case is non-trivial when its tree has more than one node")
 
 
 def run(ctx):
